@@ -476,6 +476,10 @@ impl<T> Block for NoCopyFileSink<T>""")]),
 """, "")]),
     dict(name="c18-mmap-elsewhere", prop="C18", expect="C18.R1:circular_buffer::Circ::new",
          edits=[E("src/circular_buffer.rs", "        // Shrink file.\n", "        // SAFETY: mutant\n        let _extra = unsafe { libc::mmap(std::ptr::null_mut(), size, PROT_READ, MAP_SHARED, f.as_raw_fd(), 0) };\n        // Shrink file.\n")]),
+    dict(name="c06-retired-flags-start-true", prop="C06", expect="C06.R2:<graph::Graph as graph::GraphRunner>::run:init",
+         edits=[E("src/graph.rs", "        let mut eof = vec![false; self.blocks.len()];", "        let mut eof = vec![true; self.blocks.len()];")]),
+    dict(name="c04-amount-le-need", prop="C04", expect="C04.R7:stream::ReadStream::wait_for_read:amount-vs-need",
+         edits=[E("src/stream.rs", "        self.circ.wait_for_read(need) < need && closed", "        self.circ.wait_for_read(need) <= need && closed")]),
     # ---------------- round-2 seeds as mutants
     dict(name="c02-tag-key-no-modulo", prop="C02", expect="C02.R5:circular_buffer::Buffer::produce:entry:key",
          edits=[E("src/circular_buffer.rs", "            let pos = (tag.pos() + s.wpos) % s.capacity();", "            let pos = tag.pos() + s.wpos;")]),
